@@ -78,15 +78,15 @@ def explore(binpath, cfg, fee, pct, threads=16, max_states=400000):
     return res
 
 
-def impl_tlc(ex, mon, exclude="", workers=1, timeout=3000):
+def impl_tlc(ex, mon, exclude, invs, full, workers=1, timeout=3000):
     """Leg B step 2: TLC on the extracted graph (conformance with Step + product with the ghost ledger)."""
     d = ex["dir"]
     cfg = os.path.join(d, "impl_%s.cfg" % mon)
-    vlib.write_cfg(cfg, "SPECIFICATION Spec\nVIEW View\nINVARIANTS %s\nCHECK_DEADLOCK FALSE\n" % ("C06" + mon))
+    vlib.write_cfg(cfg, "SPECIFICATION Spec\nVIEW View\nINVARIANTS %s\nCHECK_DEADLOCK FALSE\n" % " ".join(invs))
     report = os.path.join(d, "report_%s%s.json" % (mon, "_x" if exclude else ""))
     env = {"PM_NODES": ex["nodes"], "PM_ALPHABET": ex["alphabet"], "PM_FEE": ex["fee"], "PM_PCT": ex["pct"],
            "PM_REVOKE_VALIDATES": _bool(SWITCHES["revokeValidates"]), "PM_MON": mon, "PM_REPORT": report,
-           "PM_EXCLUDE": exclude}
+           "PM_EXCLUDE": exclude, "PM_FULL": "1" if full else "0"}
     r = vlib.tlc("ImplPayments", cfg, env=env, workers=workers, timeout=timeout, name="impl-payments", heap="12g")
     r["report"] = json.load(open(report))
     return r
